@@ -72,6 +72,9 @@ def run(ctx):
     from .evalhelpers import cli_spec_switch_witness
     report_witness(r2, "src/gwf/cli.py::main::spec-switch", "src/gwf/cli.py:1", cached_witness(ctx, "cli-spec-switch", cli_spec_switch_witness),
                    "the store the commands get follows use_spec_hashes of the project configuration alone (3 settings x 2 environments, one of them all-\"0\")")
+    # ... and `gwf config set use_spec_hashes yes|no` stores the boolean the selection reads (the configuration round trip of C20.R2)
+    from .shared import import_rules as _imp18
+    _imp18(ctx, r2, "C20", only={"R2"})
     reloc = sel.pop("relocated", None)
     if reloc is not None and reloc[0] is not Ellipsis and reloc[1]:
         p_ = str(reloc[0])
@@ -99,6 +102,8 @@ def run(ctx):
     rule_run_inside_stores(ctx, r3, labels=("spec hashes",))
     rule_close_writes(ctx, r3, ("spec hashes",))
     rule_atomic_replace(ctx, r3, ("spec hashes",))
+    from .shared import rule_sibling_call_agreement
+    rule_sibling_call_agreement(ctx, r3)
 
     r4 = ctx.rule("R4", "the spec test is part of the staleness decision (consulted first)")
     rule_guard_order(ctx, r4)
